@@ -333,22 +333,13 @@ int main(int argc, char** argv)
                                                  return;
                                              }
                                              chk.run_case(D, av, {}, rep, idx);
-                                             // the same spelling through parse(std::vector<user_input>) - every token of a
-                                             // rendering in front of `--` is well formed, so the checking constructor accepts it;
-                                             // renderings with dash-leading positionals behind `--` are left to the argv entry
-                                             bool wellformed = true;
-                                             for (auto& t : av)
-                                                 if (lex(t).shape == Tok::MALFORMED)
-                                                     wellformed = false;
-                                             if (wellformed)
-                                             {
-                                                 auto iv = impl_vector_entry(D, av, {});
-                                                 rep.count("executions");
-                                                 for (auto& d : compare(want, iv))
-                                                     rep.violation("vector-entry:" + d.clause, "C02:vector-entry:" + d.clause + ":" + class_seq(D, av),
-                                                                   witness_json(D, av, {}), "parse(std::vector<user_input>): " + d.detail, idx);
-                                             }
                                          });
+                                // the same spelling through parse(std::vector<user_input>): the checking constructor rejects
+                                // dash-leading positionals behind `--`, everything else must parse alike (a case of its own, so
+                                // that a crash is attributed to this entry point)
+                                long vidx = ctx.next;
+                                ctx.each([&] { return chk.describe_vector_entry(D, av, {}); },
+                                         [&](mc::Report& rep) { chk.run_vector_entry(D, av, {}, rep, vidx); });
                             });
                         }
                         int p = len - 1;
